@@ -162,7 +162,7 @@ class Check:
 
     def anchors(self, items):
         """items: list of (relpath, qualname).  A changed AST hash multiplies the
-        correspondence budget by 10 for this run (never a violation by itself)."""
+        correspondence budget by 3 (quick) / 2 (thorough) for this run (never a violation by itself)."""
         base_file = os.path.join(ROOT, "tools", "harness", "anchors", f"{self.prop}.json")
         old = json.load(open(base_file)) if os.path.exists(base_file) else {}
         cur = {}
@@ -178,7 +178,7 @@ class Check:
             return
         self.anchors_changed = [k for k, v in cur.items() if old.get(k) not in (None, v)]
         if self.anchors_changed:
-            self.budget_factor = 10 if self.tier == "quick" else 2
+            self.budget_factor = 3 if self.tier == "quick" else 2      # more cases, but the quick tier must stay quick
 
     # ------------------------------------------------------------------ lean
     def _lake(self, args, timeout=3600):
